@@ -8,12 +8,15 @@
     emit_load_imm with REX / ModRM / displacement selection) append exactly the bytes of the encoding specification X86Enc.v
     for every register, displacement and immediate; (4) for the 38 ALU opcodes emitted directly, the emitted instruction
     sequence computes the ISA value under the x86 semantics X86Sem.v, and for the 44 conditional jumps the emitted cmp/test +
-    condition code branch iff the ISA condition holds, and the 22 memory opcodes make the ISA access.  The other opcodes
-    (mul/div/mod shuffling, calls, lddw, byte swaps, prologue/epilogue), the jump displacement fix-ups and what the CPU does with the bytes are exercised by checks/C03.py (every opcode x every register
+    condition code branch iff the ISA condition holds, and the 22 memory opcodes make the ISA access; (5) for the 12 mul / div /
+    mod opcodes the sequence built by emit_muldivmod (pushes, divisor in rcx, MUL / DIV, result moves, pops, the zero-divisor
+    test and the jump inside the sequence) leaves the ISA value in the destination, restores rax, rdx and the stack and
+    never raises #DE, under the sequence machine X86Seq.v whose instruction lengths are those the encoders are proved to
+    emit.  The other opcodes (calls, lddw, byte swaps, prologue/epilogue) and what the CPU does with the bytes are exercised by checks/C03.py (every opcode x every register
     pair x boundary immediates / displacements x control-flow shapes x 4 VM kinds) against the interpreter. *)
 From Coq Require Import ZArith List.
-From RbpfV Require Import MachInt Ebpf WellFormed Verifier JitLogicProofs X86Enc JitEncProofs X86Sem ClAluProofs ClJmpProofs JitArmsProofs.
-From RbpfV.gen Require Import JitLogic JitEnc JitArms.
+From RbpfV Require Import MachInt Ebpf WellFormed Verifier JitLogicProofs X86Enc JitEncProofs X86Sem X86Seq ClAluProofs ClJmpProofs JitArmsProofs JitMulDivProofs.
+From RbpfV.gen Require Import JitLogic JitEnc JitArms JitMulDiv.
 Import ListNotations.
 Open Scope Z_scope.
 
@@ -94,10 +97,39 @@ Theorem C03_memory_accesses_packet : forall i R d s,
 Proof. exact jit_mem_arms_packet. Qed.
 
 (** non-vacuity: `mov rbx, [r13+0]` needs a displacement byte; `mov [rdi-129], r9d` takes the 4-byte form *)
+(** mul / div / mod (the 12 opcodes jit_compile sends through emit_muldivmod, 32/64-bit, immediate/register): from any
+    registers R and stack, running the emitted sequence ends -- by falling through or by jumping to the code of instruction
+    pc + 1 -- with the ISA value in the destination (0 for a division by zero, unchanged for a modulo by zero), every other
+    register except the scratch rcx as before (rax and rdx restored) and the stack as before; no step is stuck, so DIV never
+    faults (zero divisor or quotient overflow) *)
+Theorem C03_muldiv_arms : forall i pc R stk d s,
+  (forall r, 0 <= R r < 2 ^ 64) -> 0 <= d < 16 -> d <> 1 -> d <> 4 -> s <> 1 -> - 2 ^ 31 <= imm i < 2 ^ 31 ->
+  Forall (fun o =>
+    exists R' fl, (run_seq (gen_jit_muldivmod pc o s d (imm i)) R stk = Some (XFall {| x_r := R'; x_stk := stk; x_fl := fl |})
+                \/ run_seq (gen_jit_muldivmod pc o s d (imm i)) R stk = Some (XGoto (pc + 1) {| x_r := R'; x_stk := stk; x_fl := fl |}))
+      /\ R' d = newval (isa_alu_value o i (R d) (R s)) (R d)
+      /\ forall r, r <> d -> r <> 1 -> R' r = R r) gen_jit_muldiv_ops.
+Proof. exact jit_muldiv_arms. Qed.
+
+(** each abstract instruction of those sequences is one encoder call, which appends exactly the bytes whose length the
+    sequence machine uses for the jump inside the division sequence *)
+Theorem C03_muldiv_bytes : forall mem x, xi_wf x -> exists b, xbytes x = Some b /\ emit_xi mem x = Ok (mem ++ b).
+Proof. exact emit_xi_bytes. Qed.
+
 Example C03_enc_example :
   gen_emit_load [] 64 13 3 0 = Ok [0x49; 0x8b; 0x5d; 0x00] /\
   gen_emit_store [] 32 9 7 (-129) = Ok [0x44; 0x89; 0x8f; 0x7f; 0xff; 0xff; 0xff] /\
   gen_emit_load [] 8 7 0 127 = Ok [0x0f; 0xb6; 0x47; 0x7f] /\ gen_emit_load [] 8 7 0 128 = Ok [0x0f; 0xb6; 0x87; 0x80; 0; 0; 0].
+Proof. vm_compute. repeat split. Qed.
+
+(** non-vacuity of the mul / div / mod theorem: 100 / 7 in rdi, a division by zero, a 32-bit modulo, the empty sequence *)
+Definition C03_regs (r : Z) : Z := if r =? 7 then 100 else if r =? 6 then 7 else if r =? 2 then 2 ^ 40 + 9 else 0.
+Example C03_muldiv_example :
+  (match run_seq (gen_jit_muldivmod 3 0x3f 6 7 0) C03_regs [55] with Some (XFall st) => (x_r st 7, x_r st 0, x_r st 2, x_stk st) | _ => (-1, 0, 0, []) end)
+    = (14, 0, 2 ^ 40 + 9, [55]) /\
+  (match run_seq (gen_jit_muldivmod 3 0x3f 0 7 0) C03_regs [] with Some (XGoto t st) => (t, x_r st 7) | _ => (-1, -1) end) = (4, 0) /\
+  (match run_seq (gen_jit_muldivmod 3 0x9c 7 2 0) C03_regs [] with Some (XFall st) => x_r st 2 | _ => -1 end) = 9 /\
+  gen_jit_muldivmod 3 0x94 6 7 0 = [] /\ List.length gen_jit_muldiv_ops = 12%nat.
 Proof. vm_compute. repeat split. Qed.
 
 Print Assumptions C03_register_map.
@@ -110,5 +142,7 @@ Print Assumptions C03_alu_arms.
 Print Assumptions C03_jump_conditions.
 Print Assumptions C03_memory_accesses_regs.
 Print Assumptions C03_memory_accesses_packet.
+Print Assumptions C03_muldiv_arms.
+Print Assumptions C03_muldiv_bytes.
 Print Assumptions C03_jump_targets.
 Print Assumptions C03_call_targets.
